@@ -855,7 +855,12 @@ class _ExecutorManagerThread(threading.Thread):
         # Cancel pending work items if requested.
         if self.executor_flags.kill_workers:
             while self.pending_work_items:
-                _, work_item = self.pending_work_items.popitem()
+                try:
+                    _, work_item = self.pending_work_items.popitem()
+                except KeyError:
+                    # The feeder thread of the call queue can concurrently
+                    # remove (and fail) an item it could not serialize.
+                    break
                 try:
                     work_item.future.set_exception(
                         ShutdownExecutorError(
